@@ -158,6 +158,9 @@ def finish(prop, tier, seed, results, wall, write_evidence=True):
         print("VIOLATION property=%s replay=%s%s" % (prop, path, suffix))
     for r in infra:
         print("UNDECIDED (infrastructure): job %s: %s  [log %s]" % (r.job.name, r.error, r.log))
+    if os.environ.get("VERIF_VERBOSE"):
+        for r in sorted(results, key=lambda r: -r.wall):
+            print("  %-8s %-55s %5d obl %7.1fs%s" % (r.status, r.job.name, r.obligations, r.wall, " (cached)" if r.cached else ""))
     npass = sum(1 for r in results if r.status == "pass")
     tot_ob = sum(r.obligations for r in results)
     tot_dis = sum(r.discharged for r in results)
